@@ -47,20 +47,32 @@ def run(ctx):
     ctx.obligation("regression programs of the repaired findings are reported", not reg_bad)
 
     # Go-source regression programs (spellings outside MiniGo: method expressions, error variables of undecided nilness)
-    gd = os.path.join(common.VERIF, "corpus", "c20")
-    gr, gerr = wt.analyze(gd)
+    gd0 = os.path.join(common.VERIF, "corpus", "c20")
     gbad = []
-    if gr is None:
-        gbad.append("the real tool failed on corpus/c20: %s" % gerr)
-    else:
-        ranges = wt.func_ranges(os.path.join(gd, "a", "a.go"))
-        hit = lambda lo, hi: [d for d in gr["diags"] or [] if d["file"].endswith("a.go") and lo <= d["line"] <= hi]
-        for fn, (lo, hi) in sorted(ranges.items()):
-            if fn.startswith("Bad") and not hit(lo, hi):
-                gbad.append("%s (corpus/c20/a/a.go:%d-%d) dereferences the result of a contracted function called with a possibly-nil argument (or of a function that must not get a contract) and is not reported" % (fn, lo, hi))
-            if fn.startswith("Ok") and hit(lo, hi):
-                gbad.append("%s (corpus/c20/a/a.go:%d-%d) is reported: %s" % (fn, lo, hi, hit(lo, hi)[0]["message"][:200]))
-    ctx.obligation("Go-source regression programs of the repaired findings F27, F28, F29 (corpus/c20): every Bad* function reported, no Ok* function reported", not gbad)
+    from . import texture
+    import shutil
+    tscratch = ctx.scratch()
+    try:
+        # the corpus as written, and as generated code tends to look (checks/texture.py): the call-site bookkeeping of
+        # contracts keys sites by positions, which //line directives adjust
+        for kind in (None,) + texture.TEXTURES:
+            gd = gd0 if kind is None else texture.make(gd0, kind, tscratch)
+            tag = "" if kind is None else " [texture %s]" % kind
+            gr, gerr = wt.analyze(gd)
+            if gr is None:
+                gbad.append("the real tool failed on corpus/c20%s: %s" % (tag, gerr))
+                continue
+            afile = [f for f in os.listdir(os.path.join(gd, "a")) if f.endswith("a.go")][0]
+            ranges = wt.func_ranges(os.path.join(gd, "a", afile))
+            hit = lambda lo, hi: [d for d in gr["diags"] or [] if d["file"].endswith("a.go") and lo <= d["line"] <= hi]
+            for fn, (lo, hi) in sorted(ranges.items()):
+                if fn.startswith("Bad") and not hit(lo, hi):
+                    gbad.append("%s (corpus/c20/a/a.go:%d-%d%s) dereferences the result of a contracted function called with a possibly-nil argument (or of a function that must not get a contract) and is not reported" % (fn, lo, hi, tag))
+                if fn.startswith("Ok") and hit(lo, hi):
+                    gbad.append("%s (corpus/c20/a/a.go:%d-%d%s) is reported: %s" % (fn, lo, hi, tag, hit(lo, hi)[0]["message"][:200]))
+    finally:
+        shutil.rmtree(tscratch, ignore_errors=True)
+    ctx.obligation("Go-source regression programs of the repaired findings F27-F29, F42-F45 (corpus/c20), as written and under the four textures (empty first line, %-file name, //line directive, CRLF): every Bad* function reported, no Ok* function reported", not gbad)
     for m in gbad[:3]:
         ctx.violation("gocorpus", "C20 fails on the real tool: %s\nreplay: bin/harness analyze -dir corpus/c20\n" % m)
 
